@@ -117,13 +117,12 @@ Ref World::apply_macros(const Op& op)
       impl::Region& rg = R(op.a[0]);
       const size_t nparams = size_t(uint64_t(op.a[2]) % 4);
       // the function type
-      auto wh = SUT(new impl::Warehouse<ipr::Type>());
+      ArenaWarehouse wh;
       std::vector<const ipr::Type*> ptypes;
       for (size_t i = 0; i < nparams; ++i) { ptypes.push_back(&T(op.a[3] + int64_t(i) * 3)); SUT(wh->push_back(*ptypes.back())); }
       const ipr::Product* prod;
-      try { prod = &SUT(lex->get_product(*wh)); }
-      catch (...) { SUT_DO(delete wh); throw; }
-      SUT_DO(delete wh);
+      prod = &SUT(lex->get_product(*wh));
+      wh.release();
       const ipr::Type& ret = T(op.a[4]);
       const ipr::Function& ft = SUT(lex->get_function(*prod, ret));
       reg_product(*prod, ptypes);
@@ -251,14 +250,13 @@ Ref World::apply_macros(const Op& op)
       // name : <params> initializer — a primary template over a Forall type with a mapping
       impl::Region& rg = R(op.a[0]);
       if (region_sealed(rg)) return nullptr;
-      auto wh = SUT(new impl::Warehouse<ipr::Type>());
+      ArenaWarehouse wh;
       const size_t nparams = 1 + size_t(uint64_t(op.a[2]) % 3);
       std::vector<const ipr::Type*> ptypes;
       for (size_t i = 0; i < nparams; ++i) { ptypes.push_back(i == 0 ? &L.typename_type() : &T(op.a[3] + int64_t(i))); SUT(wh->push_back(*ptypes.back())); }
       const ipr::Product* prod;
-      try { prod = &SUT(lex->get_product(*wh)); }
-      catch (...) { SUT_DO(delete wh); throw; }
-      SUT_DO(delete wh);
+      prod = &SUT(lex->get_product(*wh));
+      wh.release();
       reg_product(*prod, ptypes);
       const ipr::Type* target = &T(op.a[4]);
       if (Rec* tr = rec(nref(*target)); tr != nullptr and is_udt_category(tr->exp.cat)) target = &L.int_type();
